@@ -79,6 +79,19 @@ def expectedTruncatePagesCallSeq : List String :=
    "logger.Error", "logger.Warn", "f.pageFileName", "removeFileFunc", "logger.String", "logger.Any",
    "logger.Error", "logger.Warn", "delete", "int64", "size.Sub", "logger.String", "logger.Any", "logger.Info"]
 
+/-- SetAppendedSeq touches the two sequences and the two meta words only: no page lookup or
+acquisition, no cursor / index page bookkeeping -/
+def expectedSetAppendedAccesses : List String :=
+  ["appendedSeq.Store(seq)", "acknowledgedSeq.Store(seq)",
+   "metaPage.PutUint64(uint64(q.appendedSeq.Load()), queueAppendedSeqOffset)",
+   "metaPage.PutUint64(uint64(q.acknowledgedSeq.Load()), queueAcknowledgedSeqOffset)"]
+def expectedSetAppendedConds : List String := ["err != nil"]
+def expectedSetAppendedAssigns : List String := ["err := q.metaPage.Sync()"]
+
+/-- ReadBytes returns a slice of the mapping (every Get result is its own window of the page,
+never a buffer held by the page object) -/
+def expectedReadBytesBody : List String := ["return mp.mappedBytes[offset:offset + length]"]
+
 def expectedWriteBytesBody : List String := ["copy(mp.mappedBytes[offset:], data)"]
 
 /-! ### appended sequence along a history -/
@@ -110,9 +123,10 @@ theorem put_appended {st : St} (I : Inv st) (m : Msg) :
   · unfold put; rw [if_pos (by omega)]
     simp [hl]
 
-theorem step_appended {st : St} (I : Inv st) (op : Op) :
+theorem step_appended {st : St} (I : Inv st) (op : Op) (hnr : op.noReset) :
     (step st op).q.appended = st.q.appended + (if op.completesIn st then 1 else 0) := by
   cases op with
+  | setAppended s => exact absurd hnr (by simp [Op.noReset])
   | put m =>
     show (put st m).1.q.appended = _
     rw [put_appended I]; simp [Op.completesIn]
@@ -135,17 +149,17 @@ theorem step_appended {st : St} (I : Inv st) (op : Op) :
     show (ack st s).q.appended = _
     simp [Op.completesIn, h]
   | gc => show (gc st).q.appended = _; rw [gc_q]; simp [Op.completesIn]
-  | reopen => show (openQ st.mem).q.appended = _; rw [reopen_eq I]; simp [Op.completesIn]
+  | reopen => show (openQ st.mem).q.appended = _; rw [(reopen_inv I).2.2.1]; simp [Op.completesIn]
   | crashPut m k =>
     show (crashPut st m k).q.appended = _
     unfold crashPut
     split
     · rename_i hl
-      rw [reopen_eq I]; simp [Op.completesIn]; omega
+      rw [(reopen_inv I).2.2.1]; simp [Op.completesIn]; omega
     · rename_i hl
       have hl : m.len ≤ dataPageSize := by omega
       by_cases hk : k < m.len + 4
-      · have := reopen_eq (putStores_frame I m k hk).1
+      · have := (reopen_inv (putStores_frame I m k hk).1).2.2.1
         dsimp only at this
         rw [this]; simp [Op.completesIn]; omega
       · have he : putStores (alloc st.mem st.q m.len) m k = (put st m).1.mem := by
@@ -153,16 +167,16 @@ theorem step_appended {st : St} (I : Inv st) (op : Op) :
           unfold putStores
           rw [if_neg (by omega), persistStores_ge4 _ _ _ _ _ _ (by omega)]
         obtain ⟨I', _, h, _⟩ := put_inv I m hl
-        rw [he, reopen_eq I', h]
+        rw [he, (reopen_inv I').2.2.1, h]
         simp [Op.completesIn, hl]; omega
 
-theorem run_appended {st : St} (I : Inv st) (ops : List Op) :
+theorem run_appended {st : St} (I : Inv st) (ops : List Op) (hnr : ∀ op ∈ ops, op.noReset) :
     (run st ops).q.appended = st.q.appended + (appendCount st ops : Int) := by
   induction ops generalizing st with
   | nil => simp [run, appendCount]
   | cons op ops ih =>
-    have h1 := step_appended I op
-    have h2 := ih (step_inv I op).1
+    have h1 := step_appended I op (hnr op (by simp))
+    have h2 := ih (step_inv I op (hnr op (by simp))).1 (fun o ho => hnr o (by simp [ho]))
     show (run (step st op) ops).q.appended = _
     rw [h2, h1]
     simp only [appendCount]
